@@ -126,8 +126,8 @@ class BusModel:
         self.M = M
         base = [("slave", o, s, c) for o in M["ORIG"] for s in M["SIZE"] for c in (True, False)]
         base += [("io", o, s) for o, s in M["IO"]]
-        if menu == "mid":
-            base += [("linker", o, s, True) for o in M["ORIG"] for s in M["SIZE"]]
+        if menu == "mid":       # a sub-menu of the linker regions of "full" (3 origins x 3 sizes; measured: all 49 cost 21 M histories at depth 4)
+            base += [("linker", o, s, True) for o in (M["ORIG"][1], M["ORIG"][2], M["ORIG"][4]) for s in (M["SIZE"][2], M["SIZE"][3], M["SIZE"][4])]
         if menu == "full":
             base += [(k, o, s, c) for k in ("region", "linker") for o in M["ORIG"] for s in M["SIZE"] for c in (True, False)]
             base += [("nodecode", o, M["SIZE"][2], True) for o in (0x0, M["ORIG"][4])]
